@@ -105,7 +105,7 @@ def run_rejected(unit, tier, seed, acc):
         # only values the docstring / the enumeration itself excludes (a documented rejection: out-of-range
         # number, member without an XML value); wrong Python types are not what C03 quantifies over
         vals = [(v, c) for v, c in c09.grid(row) if c in ("outside-bound", "no-xml-member", "nonfinite")]  # (inf / nan: out-of-range numbers like any other)
-        for idx, (v, vcls) in enumerate(vals):
+        for idx, (v, vcls) in enumerate(vals + vals):  # every value once after a valid one (idx even) and once on the fresh object
             prs = c09.new_deck()
             try:
                 s = c09.fresh_slide(prs, row, env.rng("C03rej", row.id, idx))
@@ -113,7 +113,7 @@ def run_rejected(unit, tier, seed, acc):
             except Exception:  # noqa
                 acc.count("rejected:fixture_failed")
                 continue
-            primed = c09.pick_prime(row, obj) if idx % 2 == 0 else t.NOPRIME
+            primed = c09.pick_prime(row, obj) if ((idx % len(vals)) % 2 == 0) != (idx >= len(vals)) else t.NOPRIME
             if primed is not t.NOPRIME:
                 try:
                     row.set(obj, primed)
